@@ -6,7 +6,7 @@ func init() {
 	register(propSpec{
 		ID: "C09", Level: "exploration",
 		Pkgs:    []pkgSpec{{Dir: "sdk/go/arvados"}},
-		Batches: 10, BatchesT: 16, Timeout: 10 * time.Minute, TimeoutT: 90 * time.Minute,
+		Batches: 12, BatchesT: 16, Timeout: 5 * time.Minute, TimeoutT: 90 * time.Minute,
 		MinEvals: 20000,
 		Rule: "stream seq: C08 operation sequence (10-160 ops, names over bytes 0x01-0xff without '/') x Keep write fault pattern (none | k-th PutB | random rate | background writes only | writes during a save only), " +
 			"MarshalManifest / Sync / Flush+MarshalManifest in between and a final save after faults stop; stream kth: one sequence re-executed with the k-th PutB failing for every k up to the fault-free count (fault enumeration); " +
